@@ -52,8 +52,8 @@ CLAIMED = {
    note="typed payload decode side (from_json) and hence the typed round trip are outside; payload <= 3 bytes; program dimension sampled by two corpus contracts; stubs: Backtrace::capture, fmt::format; trusted: Kani/CBMC/cadical, oracle table replies_h::TABLE",
    ref="§3 C08"),
  "C09": dict(
-   text="CBMC decides the data-extraction cells of the raw modes and of the absent marker for the generated dispatch_reply: #[sv::data(raw)] hands 0/1/3 symbolic data bytes through unchanged and turns absent data into an error WITHOUT invoking the handler; #[sv::data(raw, opt)] hands them through or gives None; without a marker the first parameter is payload. The two INSTANTIATE modes are decided for envelopes of 2 and 3 symbolic bytes against a hand-written reference of the protobuf wire format: well-formed => the decoded address reaches the handler; malformed => error WITHOUT invoking the handler (also for `instantiate, opt`); absent => error / None. Decided for 4 of the 6 modes plus the absent marker.",
-   note="the two EXECUTE-envelope typed modes (typed; opt) are OUTSIDE the claim: after the envelope they run from_json on the inner data (JSON text parsing, DESIGN P5/P18); raw data and instantiate envelopes <= 3 bytes; stubs: Backtrace::capture, fmt::format; trusted: Kani/CBMC/cadical, oracle table",
+   text="CBMC decides the data-extraction cells of the raw modes and of the absent marker for the generated dispatch_reply: #[sv::data(raw)] hands 0/1/3 symbolic data bytes through unchanged and turns absent data into an error WITHOUT invoking the handler; #[sv::data(raw, opt)] hands them through or gives None; without a marker the first parameter is payload. The two INSTANTIATE modes are decided for envelopes of 2 symbolic bytes against a hand-written reference of the protobuf wire format: well-formed (tag byte with field 1 / wire type 2, length 0) => the decoded (empty) address reaches the handler; malformed => error WITHOUT invoking the handler (also for `instantiate, opt`); absent => error / None. Decided for 4 of the 6 modes plus the absent marker.",
+   note="the two EXECUTE-envelope typed modes (typed; opt) are OUTSIDE the claim: after the envelope they run from_json on the inner data (JSON text parsing, DESIGN P5/P18); raw data <= 3 bytes, instantiate envelopes of 2 bytes (3-byte instances exhaust CBMC's memory); stubs: Backtrace::capture, fmt::format; trusted: Kani/CBMC/cadical, oracle table",
    ref="§3 C09"),
  "C02": dict(
    text="CBMC decides, for the dispatch functions generated by the real macros for corpus contract `basic` (own messages of all five kinds and the three contract-level wrappers over a contract + 2 interfaces), over ALL argument values, env/info values, storage/api/querier tags and both handler outcomes: exactly one handler runs, it is the one the variant was generated from, every field reaches the same-named parameter, the context is the caller's, the write lands in the caller's storage, Ok responses come back untouched, errors come back converted into the declared type, query results are the JSON bytes of the returned value.",
